@@ -1859,6 +1859,10 @@ class UserSpaceImpl(*_user_space_impl_base):
                         is_derived=True)
 
                 elif attr == "own_refs":
+                    if name in self.model.global_refs:
+                        # The derived reference shadows the global reference
+                        self.model.clear_attr_referrers(
+                            self.model.global_refs[name])
                     selfdict[name] = ReferenceImpl(
                         self, name, None,
                         container=self._own_refs,
